@@ -17,7 +17,7 @@ RULE = ("random labelled graphs (1-9 nodes, all id schemes: contiguous/offset/sp
         "with random partial atom maps (existing numbers from a small range so that collisions with the "
         "counter are frequent; occasionally duplicated or non-positive), operation in {complete_aam(None|int|'min'), "
         "initialize_aam(offset), ITS(graph)}; non-trivial = at least one unmapped and one mapped node for completion, "
-        "or an initialize_aam call on a graph with >= 2 nodes; distinct = distinct (operation, offset, node/aam list)")
+        "or an initialize_aam call on a graph with >= 2 nodes; distinct = distinct (operation, offset, node/aam list). A quarter of the completion cases are HISTORIES on one graph object: complete, edit in place (free a number, remove / add a node, remap), complete again with the same or another offset - every completion is compared with the model on the object's contents at that moment; a quarter of the initialize_aam cases have exactly one pre-mapped atom (the one with id 0 if present).")
 TRUSTED = ["model of the attribute dict as a record of the five keys FGUtils uses"]
 ASSUMPTIONS = ["node ids and map numbers are Python ints; offset is None, an int or 'min' (other values raise ValueError before any work)"]
 
@@ -63,7 +63,42 @@ def generate(seed, tier, ncases=None):
                     off = have[-1] + rng.choice([0, 1, 1, 2])
         elif op == "init":
             off = rng.choice([1, 1, 0, rng.randint(-5, 30)])
-        yield {"op": op, "graph": g, "offset": off, "scheme": scheme}
+        c = {"op": op, "graph": g, "offset": off, "scheme": scheme}
+        r = rng.random()
+        if op == "init" and r < 0.25 and g.number_of_nodes() >= 1:
+            # exactly one pre-mapped atom, preferably the one whose id is 0 / smallest / first
+            for nd in g.nodes:
+                g.nodes[nd].pop("aam", None)
+            nodes = list(g.nodes)
+            pick = 0 if 0 in nodes else rng.choice(nodes)
+            g.nodes[pick]["aam"] = rng.choice([0, 1, 5])
+        elif op == "complete" and r < 0.25:
+            # history on ONE graph object: complete, edit in place, complete again (each step judged on its own)
+            c["script"] = [rng.choice(["free_number", "remove_node", "add_node", "drop_all", "remap", "none"])
+                           for _ in range(rng.randint(1, 2))]
+            c["offsets"] = [rng.choice([off, off, None, "min", rng.randint(-2, 9)]) for _ in c["script"]]
+            c["eseed"] = rng.randint(0, 10 ** 6)
+        yield c
+
+
+def _edit(g, kind, rng):
+    """In-place edit of a graph between two completions (deterministic in rng)."""
+    nodes = list(g.nodes)
+    mapped = [n for n in nodes if "aam" in g.nodes[n]]
+    if kind == "free_number" and mapped:
+        del g.nodes[rng.choice(mapped)]["aam"]
+    elif kind == "remove_node" and len(nodes) > 1:
+        g.remove_node(rng.choice(nodes))
+    elif kind == "drop_all":
+        for n in rng.sample(mapped, len(mapped) // 2):
+            del g.nodes[n]["aam"]
+    elif kind == "remap" and mapped:
+        g.nodes[rng.choice(mapped)]["aam"] = rng.randint(-2, 15)
+    if kind in ("add_node", "free_number", "remove_node"):
+        new = max(list(g.nodes) + [0]) + rng.choice([1, 1, 3])
+        g.add_node(new, symbol=rng.choice(["C", "O", "N"]))
+        if g.number_of_nodes() > 1 and rng.random() < 0.7:
+            g.add_edge(new, rng.choice([n for n in g.nodes if n != new]), bond=1)
 
 
 def corpus():
@@ -79,6 +114,22 @@ def corpus():
 
 def run_impl(c):
     g = gens.copy_exact(c["graph"])
+    if c.get("script"):
+        import random
+        rng = random.Random(c["eseed"])
+        steps = []
+        gattr0 = dict(g.graph)
+        try:
+            complete_aam(g, offset=c["offset"])
+            steps.append((gens.copy_exact(c["graph"]), c["offset"], gens.copy_exact(g)))
+            for kind, off in zip(c["script"], c["offsets"]):
+                _edit(g, kind, rng)
+                before = gens.copy_exact(g)
+                complete_aam(g, offset=off)
+                steps.append((before, off, gens.copy_exact(g)))
+        except RuntimeError as e:
+            return ("RuntimeError", str(e))
+        return ("steps", steps, dict(g.graph) == gattr0)
     try:
         if c["op"] == "complete":
             complete_aam(g, offset=c["offset"])
@@ -99,7 +150,24 @@ def off_term(c):
     return "(OffInt %s)" % ct.z(c["offset"])
 
 
+def _off_term(off):
+    if off == "min":
+        return "OffMin"
+    if off is None:
+        return "OffNone"
+    return "(OffInt %s)" % ct.z(off)
+
+
 def coq_case(c, out):
+    if out[0] == "steps":
+        defs, agree, spec = {}, [], []
+        for i, (before, off, after) in enumerate(out[1]):
+            defs["g%d" % i] = ct.graph(before)
+            defs["o%d" % i] = "(Some %s)" % ct.graph(after)
+            agree.append("option_eqb graph_eqb (complete_aam $g%d %s) $o%d" % (i, _off_term(off), i))
+            spec.append("complete_okb $g%d %s $o%d" % (i, _off_term(off), i))
+        return {"defs": defs, "checks": {"agree": " && ".join(agree), "spec": " && ".join(spec)},
+                "diag": ["complete_aam $g%d %s" % (len(out[1]) - 1, _off_term(out[1][-1][1]))]}
     defs = {"g": ct.graph(c["graph"])}
     defs["out"] = "(@None graph)" if out[0] != "ok" else "(Some %s)" % ct.graph(out[1])
     if c["op"] == "init":
@@ -114,20 +182,33 @@ def coq_case(c, out):
 
 
 def describe(c):
-    return {"op": c["op"], "offset": c["offset"], "scheme": c["scheme"], "graph": ct.graph_py(c["graph"])}
+    d = {"op": c["op"], "offset": c["offset"], "scheme": c["scheme"], "graph": ct.graph_py(c["graph"])}
+    for k in ("script", "offsets", "eseed"):
+        if k in c:
+            d[k] = c[k]
+    return d
 
 
 def from_json(d):
-    return {"op": d["op"], "offset": d["offset"], "scheme": d["scheme"], "graph": ct.graph_from_py(d["graph"])}
+    c = {"op": d["op"], "offset": d["offset"], "scheme": d["scheme"], "graph": ct.graph_from_py(d["graph"])}
+    for k in ("script", "offsets", "eseed"):
+        if k in d:
+            c[k] = d[k]
+    return c
 
 
 def describe_out(out):
-    return {"status": out[0], "graph": ct.graph_py(out[1])} if out[0] == "ok" else {"status": out[0], "msg": out[1]}
+    if out[0] == "ok":
+        return {"status": out[0], "graph": ct.graph_py(out[1])}
+    if out[0] == "steps":
+        return {"status": "steps", "graph_attrs_unchanged": out[2],
+                "steps": [{"before": ct.graph_py(b), "offset": o, "after": ct.graph_py(a)} for b, o, a in out[1]]}
+    return {"status": out[0], "msg": out[1]}
 
 
 def key(c):
     g = c["graph"]
-    return (c["op"], c["offset"], tuple((n, g.nodes[n].get("aam")) for n in g.nodes))
+    return (c["op"], c["offset"], tuple((n, g.nodes[n].get("aam")) for n in g.nodes), repr(c.get("script")), c.get("eseed"))
 
 
 def nontrivial(c, out):
@@ -144,9 +225,13 @@ def classes(c, out):
     yield "op=" + c["op"]
     yield "scheme=" + c["scheme"]
     yield "result=" + out[0]
+    if c.get("script"):
+        yield "history=" + "+".join(c["script"])
     yield "mapped=" + ("none" if mapped == 0 else "all" if mapped == g.number_of_nodes() else "partial")
 
 
 def py_invariants(c, out):
     # edges must not be touched (the model keeps adjacency by construction; the tie compares it too)
+    if out[0] == "steps" and not out[2]:
+        return ["complete_aam changed the graph-level attribute dict graph.graph of its argument"]
     return []
